@@ -81,7 +81,7 @@ fn insert_after_first(text: &str, pred: impl Fn(&str) -> bool, new_line: &str) -
 }
 
 /// Applies one labelled rule violation to the rendered tree.
-fn inject(rng: &mut Rng, p: &Project, tree: &mut BTreeMap<String, String>, kind: &str) -> Option<Injected> {
+fn inject(rng: &mut Rng, p: &Project, tree: &mut BTreeMap<String, String>, kind: &str, return_extra: &mut Vec<Injected>) -> Option<Injected> {
     let op_files: Vec<String> = (0..p.ops.len()).map(|i| p.op_abs(i)).collect();
     let schema_files: Vec<String> = (0..p.schema_paths.len()).map(|i| p.schema_abs(i)).collect();
     let is_def_open = |l: &str| {
@@ -91,6 +91,28 @@ fn inject(rng: &mut Rng, p: &Project, tree: &mut BTreeMap<String, String>, kind:
         (t.starts_with("query ") || t.starts_with("mutation ") || t == "query {") && t.ends_with('{')
     };
     match kind {
+        // one-line faulty operations: non-ASCII text precedes the offending token on its line
+        // (columns in characters != bytes), and the same line can be put at the same position
+        // of several files (identical diagnostics in different files must all be reported)
+        "unknown_field_oneline" | "unknown_fragment_oneline" => {
+            let body = if kind == "unknown_field_oneline" { "zzUnknownField" } else { "...ZzNoSuchFragment" };
+            let n = if op_files.len() >= 2 && rng.chance(1, 2) { 2 } else { 1 };
+            let mut files = op_files.clone();
+            rng.shuffle(&mut files);
+            let mut first = None;
+            for (k, f) in files.iter().take(n).enumerate() {
+                let line = format!("query ZzOp{} ($zz: String = \"名前 – naïve\") {{ {body} }}", (b'A' + k as u8) as char);
+                // at the very top: same (line, column) in every chosen file
+                let t = format!("{line}\n{}", tree[f]);
+                tree.insert(f.clone(), t);
+                if first.is_none() {
+                    first = Some(Injected { file: f.clone(), kind: kind.into(), stage: 4 });
+                } else {
+                    return_extra.push(Injected { file: f.clone(), kind: kind.into(), stage: 4 });
+                }
+            }
+            first
+        }
         "unknown_field" | "unknown_fragment" => {
             let f = rng.pick(&op_files).clone();
             let line = if kind == "unknown_field" { "  zzUnknownField" } else { "  ...ZzNoSuchFragment" };
@@ -105,7 +127,9 @@ fn inject(rng: &mut Rng, p: &Project, tree: &mut BTreeMap<String, String>, kind:
             }
             rng.shuffle(&mut cands);
             let f = cands[0].clone();
-            let t = insert_after_first(&tree[&f], |l| l.starts_with("type ") && l.ends_with('{'), "  zzBogus: ZzNoSuchType")?;
+            // a description on the same line puts non-ASCII text before the offending token
+            let line = if rng.chance(1, 2) { "  \"naïve – 日本\" zzBogus: ZzNoSuchType" } else { "  zzBogus: ZzNoSuchType" };
+            let t = insert_after_first(&tree[&f], |l| l.starts_with("type ") && l.ends_with('{'), line)?;
             tree.insert(f.clone(), t);
             Some(Injected { file: f, kind: kind.into(), stage: 2 })
         }
@@ -164,6 +188,8 @@ fn inject(rng: &mut Rng, p: &Project, tree: &mut BTreeMap<String, String>, kind:
 }
 
 const VIOLATION_KINDS: &[&str] = &[
+    "unknown_field_oneline",
+    "unknown_fragment_oneline",
     "unknown_field",
     "unknown_fragment",
     "unknown_type",
@@ -207,8 +233,10 @@ pub fn gen_scenario(run_seed: u64, variant: &str, tier: Tier) -> E2Scenario {
         let n = rv.weighted(&[0, 5, 3, 1]);
         for _ in 0..n {
             let kind = if variant == "c13" { *rv.pick(&["dangling_import", "missing_import_name"]) } else { *rv.pick(VIOLATION_KINDS) };
-            if let Some(i) = inject(&mut rv, &project, &mut tree, kind) {
+            let mut extra = Vec::new();
+            if let Some(i) = inject(&mut rv, &project, &mut tree, kind, &mut extra) {
                 injected.push(i);
+                injected.extend(extra);
             }
         }
     }
@@ -704,11 +732,21 @@ fn drive_c18(sc: &E2Scenario, rep: &mut RunReport) {
                     let named: BTreeSet<String> = p.diags.iter().filter_map(|d| d.file.as_ref().map(|f| indep::norm(f))).collect();
                     for i in sc.injected.iter().filter(|i| i.stage == min_stage) {
                         if !named.contains(&i.file) {
-                            rep.violate(
-                                &["C18"],
-                                "C18.4-offending-file-not-named",
-                                format!("`{cmd}`: {} ({}) is named by no diagnostic; named: {named:?}", i.file, i.kind),
-                            );
+                            // structural sub-case: an import-stage fault in a file whose import
+                            // closure contains another file with an import-stage fault. The
+                            // resolver reports one error per document, positioned where the first
+                            // fault of the traversal is - possibly in the imported file.
+                            let masked = min_stage == 3 && {
+                                let fi = sc.op_inputs().iter().position(|p| *p == i.file);
+                                let model: Vec<(String, Vec<crate::model::ImportLine>, Vec<String>, bool)> =
+                                    sc.project.ops.iter().enumerate().map(|(k, f)| (sc.project.op_abs(k), f.imports.clone(), vec![], true)).collect();
+                                fi.is_some_and(|fi| {
+                                    let reach = crate::e3::reference_closure(&model, fi).reach;
+                                    sc.injected.iter().any(|o| o.stage == 3 && o.file != i.file && reach.iter().any(|r| sc.project.op_abs(*r) == o.file))
+                                })
+                            };
+                            let class = if masked { "C18.4-import-fault-masked-by-imported-file" } else { "C18.4-offending-file-not-named" };
+                            rep.violate(&["C18"], class, format!("`{cmd}`: {} ({}) is named by no diagnostic; named: {named:?}", i.file, i.kind));
                         }
                     }
                 }
@@ -872,9 +910,25 @@ fn drive_c14(sc: &E2Scenario, rep: &mut RunReport) {
         l1: Some(plan.clone()),
     };
     let e1sc2 = e1sc.clone();
+    // half of the runs: the same loader instance has served another configuration before
+    // (a module built under other naming options), as when a bundler process switches config files
+    let warm_up = rs.chance(1, 2);
+    if warm_up {
+        rep.fault("config_switch_before");
+    }
+    let other_config = "extensions:\n  nitrogql:\n    generate:\n      name:\n        capitalizeOperationNames: false\n        queryVariableSuffix: Zq\n        mutationVariableSuffix: Zm\n        subscriptionVariableSuffix: Zs\n        fragmentVariableSuffix: Zf\n      export:\n        defaultExportForOperation: false\n";
     let (calls, sub) = crate::hashseed::on_fresh_instance(e1sc.hash_seed, move || {
         let mut sub = RunReport::default();
         let mut inst = e1::Instance::new();
+        if warm_up {
+            let mut w = e1sc2.clone();
+            w.configs = vec![other_config.to_string()];
+            let wplan = e1::L1Plan { modules: vec![plan.modules[0]], sched_seed: plan.sched_seed ^ 1, pct: false, env: vec![], read_faults: vec![], config: Some(0) };
+            // slots of the warm-up are distinct from the slots of the real run
+            let mut scratch = RunReport::default();
+            let mut winst_calls = e1::run_l1_with_slot_base(&w, &wplan, &mut inst, &mut scratch, 1000);
+            winst_calls.clear();
+        }
         let calls = e1::run_l1(&e1sc2, &plan, &mut inst, &mut sub);
         (calls, sub)
     });
